@@ -400,7 +400,40 @@ func c10ParsePkts(s string) []pk.Packet {
 
 // c10Conn sends pkts from one end and reads them at the other, interleaving writes and reads; the
 // receiving Packet value is reused. Emits one `conn` line and one `conn.wire` line.
-func c10Conn(c *Ctx, cname string, key, iv []byte, thr int, dir string, fragSeed int64, pkts []pk.Packet, emitWire bool) {
+// c10Kept is a packet as the receiver holds on to it: the Packet value ReadPacket filled (its own value,
+// never touched again by the harness) and a private snapshot taken at delivery time.
+type c10Kept struct {
+	p      *pk.Packet
+	snapID int32
+	snap   []byte
+}
+
+// c10Keep records a delivered packet. own: the caller read into a fresh Packet value that is kept as it
+// is; otherwise p is a reused receiver and a private copy is kept.
+func c10Keep(p *pk.Packet, own bool) c10Kept {
+	k := c10Kept{p: p, snapID: p.ID, snap: append([]byte(nil), p.Data...)}
+	if !own {
+		k.p = &pk.Packet{ID: p.ID, Data: append([]byte(nil), p.Data...)}
+	}
+	return k
+}
+
+// c10KeptString prints the kept packets as they are NOW (after all later traffic) and, for every one
+// that no longer equals its delivery-time snapshot, a token changed-was:<tag><index>=<snapshot>.
+func c10KeptString(tag string, ks []c10Kept) (list string, changed string) {
+	ps := make([]pk.Packet, len(ks))
+	for i, k := range ks {
+		ps[i] = *k.p
+		if k.p.ID != k.snapID || !bytes.Equal(k.p.Data, k.snap) {
+			changed += fmt.Sprintf(" changed-was:%s%d=%s", tag, i, c10PktsString([]pk.Packet{{ID: k.snapID, Data: k.snap}}))
+		}
+	}
+	return c10PktsString(ps), changed
+}
+
+// keep: "reuse" (one receiving Packet value for all reads, a copy is kept), "own" (every read into its
+// own Packet value, which is kept while later packets pass), "mix" (alternating).
+func c10Conn(c *Ctx, cname string, key, iv []byte, thr int, dir string, fragSeed int64, keep string, pkts []pk.Packet, emitWire bool) {
 	var obs string
 	var half *c10Half
 	res := guardT(20*time.Second, func() {
@@ -412,7 +445,7 @@ func c10Conn(c *Ctx, cname string, key, iv []byte, thr int, dir string, fragSeed
 			half = s.ba
 		}
 		sched := rand.New(rand.NewSource(fragSeed + 2))
-		var got []pk.Packet
+		var got []c10Kept
 		var p pk.Packet // reused receiver
 		sent := 0
 		for len(got) < len(pkts) {
@@ -426,25 +459,36 @@ func c10Conn(c *Ctx, cname string, key, iv []byte, thr int, dir string, fragSeed
 				sent++
 			}
 			for len(got) < sent {
-				if err := rx.ReadPacket(&p); err != nil {
+				own := keep == "own" || (keep == "mix" && len(got)%2 == 0)
+				q := &p
+				if own {
+					q = new(pk.Packet)
+				}
+				if err := rx.ReadPacket(q); err != nil {
 					obs = fmt.Sprintf("err read %d", len(got))
 					return
 				}
-				got = append(got, pk.Packet{ID: p.ID, Data: append([]byte(nil), p.Data...)})
+				got = append(got, c10Keep(q, own))
 			}
 		}
 		if len(half.buf) != 0 {
 			obs = "err leftover"
 			return
 		}
-		obs = "ok " + c10PktsString(got)
+		list, changed := c10KeptString("", got)
+		obs = "ok " + list + changed
 	})
 	if res != "" {
 		obs = res
 	}
 	c.Emit("conn", []string{"cipher=" + cname, "key=" + hx(key), "iv=" + hx(iv), "thr=" + strconv.Itoa(thr),
-		"dir=" + dir, "frag=" + strconv.FormatInt(fragSeed, 10), "pkts=" + c10PktsString(pkts)}, obs)
-	if emitWire && res == "" && strings.HasPrefix(obs, "ok") && half != nil {
+		"dir=" + dir, "frag=" + strconv.FormatInt(fragSeed, 10), "keep=" + keep, "pkts=" + c10PktsString(pkts)}, obs)
+	total := 0
+	for _, q := range pkts {
+		total += len(q.Data)
+	}
+	// (the wire check runs the Lean AES over every byte: only for sessions of moderate size)
+	if emitWire && total <= 6000 && res == "" && strings.HasPrefix(obs, "ok") && half != nil {
 		// the plain frames: the same packets packed with the same threshold into a buffer
 		var plain bytes.Buffer
 		okp := true
@@ -526,7 +570,11 @@ func replayC10(c *Ctx, op string, args []string) bool {
 	case "conn":
 		thr, _ := strconv.Atoi(m["thr"])
 		fs, _ := strconv.ParseInt(m["frag"], 10, 64)
-		c10Conn(c, m["cipher"], unhx(m["key"]), unhx(m["iv"]), thr, m["dir"], fs, c10ParsePkts(m["pkts"]), false)
+		keep := m["keep"]
+		if keep == "" {
+			keep = "reuse"
+		}
+		c10Conn(c, m["cipher"], unhx(m["key"]), unhx(m["iv"]), thr, m["dir"], fs, keep, c10ParsePkts(m["pkts"]), false)
 	case "conn.wire":
 		var ws []int
 		if m["writes"] != "-" {
@@ -652,8 +700,23 @@ func c10Calls(c *Ctx, bs int, maxTotal int) ([]c10Call, int) {
 	return calls, total
 }
 
-func c10Payload(c *Ctx, n int) []byte {
-	switch c.R.Intn(3) {
+func c10Payload(c *Ctx, n int) []byte { return c10PayloadKind(c, n, c.R.Intn(5)) }
+
+// kind: 0 zeros, 1 periodic text, 2 random (incompressible), 3/4 compressible and not periodic
+func c10PayloadKind(c *Ctx, n int, kind int) []byte {
+	switch kind {
+	case 3, 4:
+		// compressible but not periodic: random symbols of a small alphabet in runs of random length, so
+		// that no two packets (and no two places in one packet) look alike
+		b := make([]byte, n)
+		for i := 0; i < n; {
+			v := "etaoin shrdlu_0123"[c.R.Intn(18)]
+			for r := 1 + c.R.Intn(6); r > 0 && i < n; r-- {
+				b[i] = v
+				i++
+			}
+		}
+		return b
 	case 0:
 		return make([]byte, n) // compresses to almost nothing
 	case 1:
@@ -838,8 +901,8 @@ func genC10(c *Ctx) {
 	}
 
 	// 6. encrypted Conn over a duplex pipe, with and without compression
-	for _, thr := range []int{-1, 0, 64, 256} {
-		for i := 0; i < c.N(14, 150); i++ {
+	for _, thr := range []int{-1, 0, 1, 64, 256} {
+		for i := 0; i < c.N(12, 120); i++ {
 			cn := "aes"
 			if i%7 == 6 {
 				cn = c10Ciphers[1+c.R.Intn(3)]
@@ -857,7 +920,13 @@ func genC10(c *Ctx) {
 				if t < 0 {
 					t = 64
 				}
-				switch c.R.Intn(8) {
+				switch c.R.Intn(9) {
+				case 8:
+					// across the 4 KiB and 32 KiB boundaries (buffer growth, zlib window)
+					n = []int{4096, 32768, 32768 + 4096}[c.R.Intn(3)] - 3 + c.R.Intn(6)
+					if c.R.Intn(3) == 0 {
+						n = 33000 + c.R.Intn(8000)
+					}
 				case 0:
 					n = c.R.Intn(3)
 				case 1, 2, 3:
@@ -885,7 +954,23 @@ func genC10(c *Ctx) {
 			}
 			fs := c.R.Int63n(1 << 40)
 			dir := []string{"ab", "ba"}[c.R.Intn(2)]
-			c10Conn(c, cn, key, iv, thr, dir, fs, pkts, true)
+			keep := []string{"own", "own", "mix", "reuse"}[c.R.Intn(4)]
+			c10Conn(c, cn, key, iv, thr, dir, fs, keep, pkts, true)
+		}
+		// a large packet, small ones below the threshold, then a compressed packet of more than 32 KiB:
+		// all kept / all into one reused Packet value (a destination with a history)
+		for _, keep := range []string{"own", "reuse", "mix"} {
+			key := c10Bytes(c.R, 16)
+			big1, big2 := 33000+c.R.Intn(5000), 33000+c.R.Intn(9000)
+			var pkts []pk.Packet
+			for j, n := range []int{big1, 0, 1, 5, 40, 63, 200, 255, big2, 3, 70, 4096, 12} {
+				kind := 3 // compressible, not periodic
+				if j == 0 {
+					kind = 2 // incompressible: the pooled buffers grow beyond 32 KiB
+				}
+				pkts = append(pkts, pk.Packet{ID: int32(c.R.Intn(0x80)), Data: c10PayloadKind(c, n, kind)})
+			}
+			c10Conn(c, "aes", key, key, thr, []string{"ab", "ba"}[c.R.Intn(2)], c.R.Int63n(1<<40), keep, pkts, false)
 		}
 	}
 
